@@ -19,10 +19,10 @@ H.append({"name":"H_inplace","tiers":Q,"scale":"b2","bounds":"content two levels
   "param_sets":[{"a":3,"b":5,"c":2,"shape":s,"orders":0} for s in deep]+[{"a":3,"b":5,"c":2,"shape":34,"orders":1}]})
 H.append({"name":"H_inplace","tiers":Q,"scale":"b2","bounds":"every rename fails (wharf's BOWL_DEBUG_BROKEN_RENAME switch, as with a stage folder on another device): the bowl falls back to copy + remove; renames, swaps, chains, rotation, duplications and the kind swaps that move files; insertion order",
   "param_sets":[{"a":3,"b":5,"c":2,"shape":s,"orders":0,"brokenrename":1} for s in (1,2,3,4,5,6,14,16,17,18,19,20,22,23,25,28,30,31)]})
-H.append({"name":"H_inplace","tiers":T,"scale":"b4","bounds":"B=4; sizes (5,9,4) and (0,4,1); all shapes; all map orders","max_seconds":1500,
-  "param_sets":[{"a":a,"b":b,"c":c,"shape":s,"orders":1} for (a,b,c) in ((5,9,4),(0,4,1)) for s in shapes+swaps+deep]})
-H.append({"name":"H_inplace","tiers":T,"scale":"b2","bounds":"B=2; sizes (0,0,0),(1,2,3),(4,4,4); all shapes; all map orders","max_seconds":1500,
-  "param_sets":[{"a":a,"b":b,"c":c,"shape":s,"orders":1} for (a,b,c) in ((0,0,0),(1,2,3),(4,4,4)) for s in shapes+swaps+deep]})
+H.append({"name":"H_inplace","tiers":T,"scale":"b4","bounds":"B=4; sizes (5,9,4) and (0,4,1); all shapes; all map orders (the deep-nesting shapes 34-37: insertion order)","max_seconds":1500,
+  "param_sets":[{"a":a,"b":b,"c":c,"shape":s,"orders":1} for (a,b,c) in ((5,9,4),(0,4,1)) for s in shapes+swaps]+[{"a":a,"b":b,"c":c,"shape":s,"orders":0} for (a,b,c) in ((5,9,4),(0,4,1)) for s in deep]})
+H.append({"name":"H_inplace","tiers":T,"scale":"b2","bounds":"B=2; sizes (0,0,0),(1,2,3),(4,4,4); all shapes; all map orders (the deep-nesting shapes 34-37: insertion order)","max_seconds":1500,
+  "param_sets":[{"a":a,"b":b,"c":c,"shape":s,"orders":1} for (a,b,c) in ((0,0,0),(1,2,3),(4,4,4)) for s in shapes+swaps]+[{"a":a,"b":b,"c":c,"shape":s,"orders":0} for (a,b,c) in ((0,0,0),(1,2,3),(4,4,4)) for s in deep]})
 json.dump({"property":"C02","package":"c02","scale":scale,"harnesses":H,
  "stubs":["os -> in-memory file system model","md5/protobuf models","Go map iteration order -> explored exhaustively during Commit","deterministic goroutine schedule"],
  "outside":["case-insensitive file systems","pairs of relations beyond the listed shapes","block size 64 KiB / overlay window 128 KiB (declared values scaled)"]},open("config.json","w"),indent=1)
